@@ -108,7 +108,49 @@ impl<'a> ArrayView<'a> {
             data.len(),
             HEADER_SIZE
         );
-        Ok(Self { data })
+        let view = Self { data };
+        view.validate()?;
+        Ok(view)
+    }
+
+    /// Checks once what every getter relies on: a known element type, and the null bitmap, the
+    /// element area (fixed-width) or the offset table and every announced element (variable-width)
+    /// inside `data`.
+    fn validate(&self) -> Result<()> {
+        let elem_type = DataType::try_from(self.data[4])
+            .map_err(|_| eyre::eyre!("corrupted array: invalid type byte {}", self.data[4]))?;
+        let len = self.len();
+        let table_start = HEADER_SIZE + self.null_bitmap_size();
+        if let Some(size) = elem_type.fixed_size() {
+            ensure!(
+                table_start + len * size <= self.data.len(),
+                "corrupted array: {} elements of {} bytes do not fit {} bytes",
+                len,
+                size,
+                self.data.len()
+            );
+            return Ok(());
+        }
+        let data_start = table_start + len * 4;
+        let total = self.total_size() as usize;
+        ensure!(
+            data_start <= total && total <= self.data.len(),
+            "corrupted array: total size {} outside {}..={}",
+            total,
+            data_start,
+            self.data.len()
+        );
+        let mut prev = 0usize;
+        for idx in 0..len {
+            let start = self.read_offset(idx) as usize;
+            ensure!(
+                prev <= start && start <= total - data_start,
+                "corrupted array: offset of element {} out of order",
+                idx
+            );
+            prev = start;
+        }
+        Ok(())
     }
 
     fn total_size(&self) -> u32 {
@@ -116,7 +158,7 @@ impl<'a> ArrayView<'a> {
     }
 
     pub fn elem_type(&self) -> DataType {
-        DataType::try_from(self.data[4]).expect("corrupted array: invalid type byte")
+        DataType::try_from(self.data[4]).expect("type byte validated in ArrayView::new")
     }
 
     #[allow(dead_code)]
